@@ -5,6 +5,7 @@ package main
 import (
 	"fmt"
 	"go/types"
+	"regexp"
 	"strings"
 
 	"golang.org/x/tools/go/ssa"
@@ -143,8 +144,21 @@ func zeroOf(sort string) *Term {
 	panic("zeroOf " + sort)
 }
 
+var aliasWord = regexp.MustCompile(`\b(byte|rune|any)\b`)
+
+// typeKey names a type for heap arrays; byte/uint8, rune/int32 and any/interface{} are the
+// same memory and must get the same name.
 func (e *Engine) typeKey(t types.Type) string {
-	return types.TypeString(t, func(p *types.Package) string { return p.Name() })
+	s := types.TypeString(t, func(p *types.Package) string { return p.Name() })
+	return aliasWord.ReplaceAllStringFunc(s, func(w string) string {
+		switch w {
+		case "byte":
+			return "uint8"
+		case "rune":
+			return "int32"
+		}
+		return "interface{}"
+	})
 }
 
 // unflatten builds a Val of type t from leaf terms.
@@ -292,6 +306,14 @@ func intRange(b *types.Basic) (lo, hi *Term, ok bool) {
 // typeFacts records range facts for v.
 func (st *State) typeFacts(v Val, t types.Type) {
 	if isTimeTime(t) {
+		// time.Time is modelled as its UnixNano value (an int64)
+		if x, ok := v.(VInt); ok && !x.T.IsLit() {
+			lo := Pow2(63)
+			lo.Int.Neg(lo.Int)
+			lo.str = ""
+			st.addFact(Ge(x.T, lo))
+			st.addFact(Lt(x.T, Pow2(63)))
+		}
 		return
 	}
 	switch x := v.(type) {
@@ -437,6 +459,13 @@ func (st *State) heapGet(name, sort string) *Term {
 		}
 		return t
 	}
+	for _, hn := range st.havocNames {
+		if name == hn || strings.HasPrefix(name, hn+"#") {
+			t := st.freshSym("mod:"+name, sort)
+			st.heap[name] = t
+			return t
+		}
+	}
 	t := Sym("H0:"+name, sort)
 	st.heap[name] = t
 	return t
@@ -457,12 +486,23 @@ func storeN(a *Term, idx []*Term, v *Term) *Term {
 	return Store(a, idx[0], storeN(inner, idx[1:], v))
 }
 
+// leafName: an array object's element heaps are named like a slice's ("[]T" + leaf), so a
+// whole-array access through a pointer to the array drops the leading "[]" of the leaf path.
+func leafName(p VPtr, prefix, path string) string {
+	if len(p.Path) == 0 {
+		if _, ok := p.Root.Underlying().(*types.Array); ok {
+			return prefix + strings.TrimPrefix(path, "[]")
+		}
+	}
+	return prefix + path
+}
+
 func (st *State) heapLoad(p VPtr, t types.Type) Val {
 	prefix, idx := st.eng.heapAddr(p)
 	ls := st.eng.leaves(t)
 	ts := make([]*Term, len(ls))
 	for i, l := range ls {
-		name := prefix + l.Path
+		name := leafName(p, prefix, l.Path)
 		arr := st.heapGet(name, nestedSort(l.Sort, len(idx)))
 		ts[i] = selN(arr, idx)
 	}
@@ -479,7 +519,7 @@ func (st *State) heapStore(p VPtr, t types.Type, v Val) {
 		panic(fmt.Sprintf("heapStore: %d leaves for %s, %d terms (%T)", len(ls), t, len(ts), v))
 	}
 	for i, l := range ls {
-		name := prefix + l.Path
+		name := leafName(p, prefix, l.Path)
 		arr := st.heapGet(name, nestedSort(l.Sort, len(idx)))
 		st.heapSet(name, storeN(arr, idx, ts[i]))
 	}
